@@ -10,6 +10,7 @@ package harness
 //      formats: inflating only the declared length must not inflate the work.
 
 import (
+	"os"
 	"bytes"
 	"encoding/binary"
 	"fmt"
@@ -75,6 +76,24 @@ func genAdvRaw(rt *rapid.T, l string) []byte {
 	}
 }
 
+var hostileHeaderNames = []string{"Accept-Encoding", "Accept-Encoding", "User-Agent", "Origin", "Content-Type", "Cookie", "Host", "Connection", "Upgrade", "Sec-Websocket-Key", "X-Forwarded-For"}
+
+var hostileHeaderValues = map[string][]string{
+	"Accept-Encoding":   {"gzip;q", "gzip;", "gzip;q=", "gzip;=", "gzip;q=abc", ";q", ";", ",", "gzip;q;q;q", "br;q=1;q", "deflate;q=0.0.0", "gzip;q=-1", "gzip;q=1e400", "zstd ; q", strings.Repeat("gzip;q,", 500), "gzip\tq", "\xff\xfe", "*;q", "identity;q=0, *;q=0"},
+	"User-Agent":        {"", "Mozilla/5.0 (compatible;MSIE 9.0; Windows NT 6.1; Trident/5.0)", "Trident/", ";MSIE", strings.Repeat("A", 20000), "\xff"},
+	"Origin":            {"", "null", "http://a\x7fb", "http://\x00", strings.Repeat("http://x", 3000), "http://ü.example", "://", "*"},
+	"Content-Type":      {"", ";", "application/octet-stream;", "APPLICATION/OCTET-STREAM", "text/plain;charset", "application/x-www-form-urlencoded;;;", strings.Repeat("a/b;", 2000)},
+	"Cookie":            {"io=", "io=;;;", "=", strings.Repeat("io=x; ", 2000), "io=\xff"},
+	"Host":              {"", ":", "[::1", "a:b:c", strings.Repeat("h", 5000)},
+	"Connection":        {"upgrade", "Upgrade, keep-alive", "close", ""},
+	"Upgrade":           {"websocket", "WebSocket", "h2c", ""},
+	"Sec-Websocket-Key": {"", "x", strings.Repeat("A", 1000)},
+	"X-Forwarded-For":   {"", "1.2.3.4, 5.6.7.8", "\xff", strings.Repeat("1.1.1.1,", 2000)},
+}
+
+// (control bytes only in Origin, whose well-formedness the engine checks itself; net/http refuses them elsewhere)
+func unescapeHostile(s string) string { return s }
+
 func genC09(rt *rapid.T, known map[string]bool, col *Collector) advCase {
 	c := advCase{}
 	c.Carrier = rapid.SampledFrom([]string{"polling", "polling", "jsonp", "websocket", "webtransport"}).Draw(rt, "carrier")
@@ -85,7 +104,7 @@ func genC09(rt *rapid.T, known map[string]bool, col *Collector) advCase {
 	n := rapid.IntRange(1, 10).Draw(rt, "nsteps")
 	for i := 0; i < n; i++ {
 		l := fmt.Sprintf("s%d", i)
-		kinds := []string{"rawBody", "rawBody", "rawFrame", "rawFrame", "heartbeat", "badQuery", "badMethod", "oversize", "candidate", "candidate", "wtHandshake", "repeatProbe", "abort", "wait", "validTraffic"}
+		kinds := []string{"rawBody", "rawBody", "rawFrame", "rawFrame", "heartbeat", "badQuery", "badMethod", "oversize", "candidate", "candidate", "wtHandshake", "repeatProbe", "abort", "wait", "validTraffic", "hostileHeaders", "hostileHeaders"}
 		st := advStep{Kind: rapid.SampledFrom(kinds).Draw(rt, l+".kind")}
 		switch st.Kind {
 		case "rawBody":
@@ -127,6 +146,12 @@ func genC09(rt *rapid.T, known map[string]bool, col *Collector) advCase {
 			st.Arg = rapid.SampledFrom([]string{"abandon", "complete"}).Draw(rt, l+".end")
 		case "wait":
 			st.N = rapid.SampledFrom([]int{1, 100, 1000, 11000}).Draw(rt, l+".ms")
+		case "hostileHeaders":
+			// header name + value of the next requests; N: size of the message the application has queued for
+			// the offender (a response above the compression threshold takes the content-coding path)
+			st.Arg = rapid.SampledFrom(hostileHeaderNames).Draw(rt, l+".hn")
+			st.Raw = []byte(rapid.SampledFrom(hostileHeaderValues[st.Arg]).Draw(rt, l+".hv"))
+			st.N = rapid.SampledFrom([]int{0, 10, 1023, 1024, 5000}).Draw(rt, l+".queued")
 		}
 		c.Steps = append(c.Steps, st)
 	}
@@ -463,6 +488,53 @@ func runC09(c advCase) (fail string, stats map[string]bool) {
 					Settle()
 				}
 			}
+		case "hostileHeaders":
+			// the offender's next requests carry a header of an odd shape: a poll of its own session (with a
+			// message of N bytes queued for it, so that the response may take the compression path), a data
+			// request, and a fresh handshake
+			hv := unescapeHostile(string(st.Raw))
+			q := "EIO=" + eio + "&transport=polling&sid=" + sid
+			if off.pc != nil {
+				q = off.pc.query(true)
+				if st.N > 0 && len(offSR.Closes) == 0 {
+					if off.pc.Poll != nil {
+						// a poll is pending: let it carry something away first, so that the message below waits
+						// for the request with the odd header
+						offSR.Sock.Send(strings.NewReader("go"), nil, nil)
+						Settle()
+						off.pc.Pump()
+					}
+					offSR.Sock.Send(strings.NewReader(strings.Repeat("z", st.N)), nil, nil)
+					Settle()
+					stats["hostile-header-on-a-poll-with-data-waiting"] = true
+				}
+			}
+			for k, m := range []string{"GET", "POST", "GET"} {
+				spec := NewReq(m, w.Path, q)
+				if k == 2 {
+					spec = NewReq("GET", w.Path, "EIO=4&transport=polling")
+				}
+				if m == "POST" {
+					spec.Header.Set("Content-Type", "text/plain;charset=UTF-8")
+					spec.Body, spec.HasBody = []byte("4h"), true
+				}
+				spec.Header[st.Arg] = []string{hv}
+				if st.Arg == "Accept-Encoding" && k == 0 && i%2 == 1 {
+					// a second header line as well: net/http keeps both
+					spec.Header[st.Arg] = []string{hv, "gzip"}
+				}
+				e := aw.do(spec)
+				Settle()
+				if os.Getenv("VERIF_DEBUG") != "" {
+					fmt.Println("hostile", m, spec.Query, spec.Header, e.Snap())
+				}
+			}
+			stats["hostile-header"] = true
+			stats["hostile-header."+st.Arg] = true
+			if off.pc != nil {
+				// whatever the poll above fetched is not the client actor's business any more
+				off.pc.Poll = nil
+			}
 		case "validTraffic":
 			if len(offSR.Closes) == 0 {
 				switch {
@@ -523,7 +595,7 @@ func TestC09Adversarial(t *testing.T) {
 		"rapid: an offending client (polling/JSONP/WebSocket/WebTransport, revision 3/4) runs 1-10 steps drawn from: request bodies of arbitrary bytes / hostile constants (inflated or negative length prefixes, truncated binary framing, invalid UTF-8/base64, separators only, JSON oddities) under six content types, arbitrary WebSocket frames (reserved opcodes, lone continuations, unfinished fragments, 2^62 declared length, invalid UTF-8, unmasked) and raw WebTransport stream bytes, heartbeats of both directions in every phase, malformed query strings and methods, oversized declared/chunked bodies, upgrade candidates whose revision does not match the session's followed by upgrade and heartbeats, malformed WebTransport handshake packets, repeated probes, aborted requests, waits; next to it a canary session exchanges a message in both directions after every step; oracle: no handler panics (a panic in a reader/timer goroutine kills the test process and is attributed by the driver from the journal), the canary is never disturbed, the offender closes at most once, every handler returns once its client is gone and no goroutine is left when all clients are gone. non-trivial: a script with a mutated field the server did not refuse at admission").Use(t)
 	known := map[string]bool{sigNilPingTimer: isKnown("C09", sigNilPingTimer), sigWTNullHS: isKnown("C09", sigWTNullHS), sigV3LengthSpin: isKnown("C09", sigV3LengthSpin)}
 	rapid.Check(t, propC09(t, col, known))
-	col.RequireClasses(t, "mutated-body", "mutated-frame", "mismatched-candidate", "mutated-wt-handshake", "repeated-probe", "heartbeat-any-phase", "offender-closed", "offender-survived")
+	col.RequireClasses(t, "mutated-body", "mutated-frame", "mismatched-candidate", "mutated-wt-handshake", "repeated-probe", "heartbeat-any-phase", "offender-closed", "offender-survived", "hostile-header", "hostile-header.Accept-Encoding", "hostile-header.User-Agent", "hostile-header-on-a-poll-with-data-waiting")
 }
 
 // ---- (c) work proportional to the bytes received --------------------------------
